@@ -94,13 +94,20 @@ def _c05_key(c):
 
 def _serve_weight(h):
     """206 / multipart instances (Range honoured) peak at 20-30 GB: at most two at a time."""
+    # units of ~4 GB on a 16-core / 62 GB box (capacity 16): one-poll multipart steps and
+    # precondition groups are small, the real prepare_multipart ~4 GB, a 200-path serve instance
+    # 6-10 GB, a 206 / multipart instance 15-27 GB
     if "::mpgen::" in h:
+        return 0.5
+    if "::pgen::" in h:
         return 1
     n = h.split("::")[-1]
+    if n.startswith("prep_unit_"):
+        return 1.5
     honoured = "_absent" in n or ("_same" in n and ("_estrong_" in n or "_ecomma_" in n))
     if (n.startswith("serve_single_") and honoured) or (n.startswith("serve_multi_") and honoured):
-        return 7
-    return 2
+        return 6
+    return 2.5
 
 
 def unit_serve(select, panic_tags=("C13",), precond=False, mp=None, prep=False, qkey=None, qcap=1, quick=None):
@@ -169,9 +176,7 @@ MP_NOTE = 'multipart bodies are decomposed (DESIGN.md section 5b): serve() hands
 # Serve-level instances of the quick tier, per property (see unit_serve: `quick`).
 QUICK_SERVE = {'C01': ['serve_full_get_enone_m0_h0_absent_hd',
          'serve_full_get_estrong_m1_h2_absent_bd',
-         'serve_unsat_get_enone_m0_h0_absent',
-         'serve_m405_post_estrong_m1_h1_absent',
-         'serve_single_get_enone_m0_h0_absent',
+                  'serve_single_get_enone_m0_h0_absent',
          'serve_multi_get_estrong_m1_h1_absent_r2_rev'],
  'C02': ['serve_single_get_enone_m0_h0_absent',
          'serve_single_get_estrong_m1_h2_same',
@@ -220,6 +225,7 @@ def _simple_unit(name, inject, harnesses, decode_fn=None, gen_fn=None, load_meta
         "panic_tags": list(panic_tags),
         "extra": extra if extra is not None else KANI_LIGHT,
         "timeout": timeout or {"quick": 1500, "thorough": 3600},
+        "weight": 1.5,
     }
 
 
@@ -251,6 +257,12 @@ def unit_lib():
 
 
 def unit_gzip(names, panic_tags=("C13",)):
+    u = _unit_gzip(names, panic_tags)
+    u["weight"] = 3  # sb_dead_after_abort_gz peaks near 10 GB
+    return u
+
+
+def _unit_gzip(names, panic_tags=("C13",)):
     return _simple_unit("gzip", {"gzip.rs": "gzip_h.rs"}, lambda tier, meta: ["gzip::verif_h::" + n for n in names],
                         decode_fn=decode.decode_gzip, panic_tags=panic_tags)
 
@@ -265,7 +277,7 @@ def unit_chunker(select, panic_tags=("C13",)):
         return ["chunker::verif_h::gen::" + n for n, m in sorted(meta.items()) if select(m)]
     u = _simple_unit("chunker", {"chunker.rs": "chunker_h.rs"}, hs, decode_fn=decode.decode_chunker, gen_fn=_chunker_gen,
                      load_meta=lambda hdir: json.load(open(os.path.join(hdir, "chunker_meta.json"))), panic_tags=panic_tags)
-    u["weight"] = 2
+    u["weight"] = 1
     return u
 
 
